@@ -84,6 +84,14 @@ fn tokens_of(dict: Dictionary, sents: &[String], ign: bool) -> Option<(Vec<Strin
 fn make_image(rng: &mut Rng) -> Option<(Vec<u8>, String, crate::gen::DictSrc, GenCfg, Option<Dictionary>)> {
     let mut cfg = GenCfg::default();
     cfg.kind = None;
+    // costs at the limits of their types in a fifth of the images: word / matrix costs around +-30000 (i16), raw bigram
+    // entries around +-60000 (the scorer stores i32): the image must keep every cost at its full width
+    if rng.chance(1, 5) {
+        cfg.cost_mag = 30000;
+        if rng.chance(2, 3) {
+            cfg.kind = Some(1);
+        }
+    }
     let mut drng = rng.fork();
     let d = gen_dict(&mut drng, &cfg);
     let dict = match build_dict(&d) {
